@@ -384,5 +384,10 @@ def run(chk):
     chk.guard(r20_4, chk)
     chk.rule("R20.5", "every link's centre, axes and offset name one frame (the offset is relative to the centre it is linked to)")
     chk.guard(r20_5, chk)
+    from .common import conversion_is_a_read
+
+    def conv_r20_6(c):
+        conversion_is_a_read(c, "R20.6")
+    chk.guard(conv_r20_6, chk)
     chk.assume("leaf attachment to a tree keeps it a tree, and on a tree the route is unique: routing correctness on the built-in "
                "graphs then needs only that _update reaches every node (R20.4 shape), not shortest-path selection")
